@@ -84,7 +84,7 @@ theorem FailRel.rebase {base new1 : List Loc} {ctx : Val} {st' : St} (h : FailRe
 
 /-- the generic sequencing lemma: first a sub-run (IH, measured from `base ++ new1` where `new1` are the
     emissions `e1` made so far), then continuations -/
-theorem Refines.andThen {m m' : Mode} {base new1 : List Loc} {e1 : List Emis} {ctx : Val}
+theorem Refines.andThen {m m' : Mode} {base new1 : List Loc} {ctx : Val}
     {o : Out} {so : SOut} {k : Val → St → Out} {sk : Val → SS → List Emis → SOut}
     (h : Refines m' (base ++ new1) ctx o so)
     (hk : ∀ v st1 v' s1 e2, OkRel m' (base ++ new1) ctx v st1 v' s1 e2 →
@@ -99,7 +99,7 @@ theorem Refines.andThen0 {m m' : Mode} {base : List Loc} {ctx : Val}
     (hk : ∀ v st1 v' s1 e2, OkRel m' base ctx v st1 v' s1 e2 →
         Refines m base ctx (k v st1) (sk v' s1 e2)) :
     Refines m base ctx (o.andThen k) (so.andThen sk) := by
-  have := @Refines.andThen m m' base [] [] ctx o so k sk (by simpa using h) (by simpa using hk)
+  have := @Refines.andThen m m' base [] ctx o so k sk (by simpa using h) (by simpa using hk)
   exact this
 
 /-- IH instance for a sub-run started in `st1` which is `OkRel`-related to the spec position `s1` -/
@@ -112,5 +112,47 @@ theorem RunnerRefines.at {R : Runner} {P : SRunner} (hR : RunnerRefines R P) {en
   have := hR env m g st1 hm
   rw [he, h.ctx, h.ss] at this
   exact this
+
+/-- relation between the iterator protocol results -/
+structure DoneRel (base : List Loc) (ctx : Val) (st' : St) (ist' : ItSt) (s' : SS) (ist'' : ItSt)
+    (em : List Emis) : Prop where
+  ss : st'.ss = s'
+  errs : ∃ new, st'.errs = base ++ new ∧ EmsRel new em
+  ctx : st'.ctx = ctx
+  ist : ist' = ist''
+
+def RefinesIt (m : Mode) (base : List Loc) (ctx : Val) : ItOut → SItOut → Prop
+  | .some v st' i', .some v' s' i'' em => OkRel m base ctx v st' v' s' em ∧ i' = i''
+  | .done st' i', .done s' i'' em => DoneRel base ctx st' i' s' i'' em
+  | .fail st', .fail => FailRel base ctx st'
+  | .panic w, .panic w' => w = w'
+  | .oof, .oof => True
+  | _, _ => False
+
+def RefinesMk (base : List Loc) (ctx : Val) : MkOut → SMkOut → Prop
+  | .ok i' st', .ok i'' s' em => DoneRel base ctx st' i' s' i'' em
+  | .fail st', .fail => FailRel base ctx st'
+  | .panic w, .panic w' => w = w'
+  | .oof, .oof => True
+  | _, _ => False
+
+def NextRefines (N : NextRunner) (SN : SNextRunner) : Prop :=
+  ∀ env m it st ist, env.memoOn = false →
+    RefinesIt m st.errs st.ctx (N env m it st ist) (SN env it st.ss st.ctx ist)
+
+def MkRefines (K : MkRunner) (SK : SMkRunner) : Prop :=
+  ∀ env m it st, env.memoOn = false → RefinesMk st.errs st.ctx (K env m it st) (SK env it st.ss st.ctx)
+
+/-- combine: emissions so far (`new1 ~ e1`) and a result measured from `base ++ new1` -/
+theorem OkRel.seq {m' m : Mode} {base new1 : List Loc} {e1 e2 : List Emis} {ctx v st2 v' s2}
+    (hr1 : EmsRel new1 e1) (h2 : OkRel m' (base ++ new1) ctx v st2 v' s2 e2) {w w' : Val}
+    (hv : w = m.bind w') : OkRel m base ctx w st2 w' s2 (e1 ++ e2) := by
+  obtain ⟨new2, he2, hr2⟩ := h2.errs
+  exact ⟨hv, h2.ss, ⟨new1 ++ new2, by simp [he2], hr1.append hr2⟩, h2.ctx⟩
+
+theorem OkRel.mono {m' m : Mode} {base ctx v st2 v' s2 e2}
+    (h2 : OkRel m' base ctx v st2 v' s2 e2) {w w' : Val}
+    (hv : w = m.bind w') : OkRel m base ctx w st2 w' s2 e2 :=
+  ⟨hv, h2.ss, h2.errs, h2.ctx⟩
 
 end Chumsky
